@@ -5,11 +5,11 @@
  "enforce": ["HMAC_SHA256_Init_internal"],
  "replace": ["libcperciva_SHA256_Init", "SHA256_Update_internal", "SHA256_Final_internal"],
  "annotate": ["alg/sha256.c"],
- "defines": ["VERIF_HALLOC", "VERIF_HASH_ABS", "SHA_MAXOBJ=130"],
+ "defines": ["VERIF_HALLOC", "VERIF_HASH_ABS", "SHA_MAXOBJ=0xffffffff"],
  "expect_loops": ["HMAC_SHA256_Init_internal"],
  "timeout": 600,
  "assumptions": ["hash layer abstracted at the call level (VERIF_HASH_ABS contracts of SHA256_Init/Update_internal/Final_internal; digests uninterpreted); lemma L-md links them to the enforced trace contracts",
-                 "key object size <= SHA_MAXOBJ bytes (symbolic object bound only)"]
+                 "key object size < 2^32 bytes (SHA_MAXOBJ)"]
 }
 */
 /*
